@@ -26,7 +26,9 @@ RULE = ("single spec {m:SPEC}: every (min,max) in {absent,0,1,2,3,5}^2 (incl. mi
         "U+10FFFF (F4 8F BF BF), combining acute U+0301} x every splitting of the text into non-empty "
         "write_str pieces, with the fill drawn from 16 characters (multi-byte, combining, and the syntax "
         "characters } { ( ) : 0 < > . \\) and the sink script drawn from {accept all, 1, 2, 3 bytes per "
-        "call} (thorough: all four for texts <= 3 chars, two for 4 chars), every ninth combination also with a sink "
+        "call}; single pieces of 2-8 KiB of uniform 1/2/3/4-byte characters under minimum widths around their character "
+        "count; 20 (60) cases encoded after records whose message FAILED half-way inside aligned fields on the same thread "
+        "(thorough: all four for texts <= 3 chars, two for 4 chars), every ninth combination also with a sink "
         "whose write calls intermittently fail with ErrorKind::Interrupted (nothing written; write_all retries) and a "
         "fifth of the random scripts with such a call inserted; the same for a random sample of "
         "4-6 character texts over a wider palette (e-acute, euro, U+1D11E, U+0080, U+07FF, U+FFFF, U+10000, "
@@ -251,6 +253,23 @@ def wide_cases(rng, thorough):
         # max only: a long text cut at a wide column
         for pieces in WIDE_TEXTS[6:]:
             out.append(single(rng.choice(SCRIPTS), list(pieces), [0, w + 1, 0, ""]))
+    # ONE piece of 2 .. 8 KiB (uniform 1-, 2-, 3-, 4-byte characters and a mix) under a minimum width just below,
+    # at and above its character count, a maximum width cutting it, and both; also inside a group
+    for n in ([2047, 2048, 2049, 4096, 8200] if thorough else [2048, 2049, 4100]):
+        for unit in ("a", "\u00e9", "\u20ac", "\U0001d11e", "ab\u00e9"):
+            chars = (n // len(unit.encode("utf-8"))) * len(unit)
+            text = unit * (n // len(unit.encode("utf-8")))
+            for al in (1, 2):
+                for mn in (chars - 1, chars, chars + 2):
+                    out.append(single([], [text], [mn + 1, 0, al, rng.choice(["", "~", "\u20ac"])]))
+                out.append(single(rng.choice(SCRIPTS), [text], [chars - 6 + 1, chars - 3 + 1, al, ""]))
+                out.append([[], [text], "tgt", [[4, [chars + 2 + 1, 0, al, "*"], [[0, [0, chars - 2 + 1, 0, ""]]]]]])
+    # after records whose message FAILED half-way inside aligned fields on the same thread (target "poison")
+    for _ in range(60 if thorough else 20):
+        t = [rng.choice(PALETTE + EXTRA) for _ in range(rng.range(0, 5))]
+        c = single(rand_script(rng), rand_pieces(rng, t), [rng.range(1, 9), 0, rng.range(1, 2), rng.choice(FILLS)])
+        c[2] = "poison"
+        out.append(c)
     # nested: the inner group's output is wider than 64 and is cut / padded again by the outer one
     for _ in range(1500 if thorough else 250):
         wi, wo = rng.choice(WIDE), rng.choice(WIDE)
